@@ -318,6 +318,39 @@ def r6_override_order(idx, r):
         r.require(st.get("expand", (0, 0))[1] == 0, "override-before-expansion", f, node=c, msg="custom isotopics must be applied before elementals are expanded")
 
 
+def r7_specifier_tables(idx, r):
+    """A lattice map names designs by specifier. (a) The table that resolves specifiers to assembly designs must refuse a
+    second design with the same specifier (otherwise the later design silently takes every position of the earlier one).
+    (b) Where pin-lattice specifiers are matched against a component's latticeIDs, both sides are brought to the same type
+    (IDs are coerced to str; specifiers of an explicit `grid contents` list may be integers)."""
+    bp = idx.method("armi.reactor.blueprints.Blueprints", "_prepConstruction")
+    if bp is None:
+        raise AnchorMissing("Blueprints._prepConstruction")
+    stores = [s_ for s_ in iter_stores(bp.node) if s_.kind == "subscript" and norm(s_.node.value) == "self._assembliesBySpecifier"]
+    if not stores:
+        raise AnchorMissing("_prepConstruction: store into _assembliesBySpecifier")
+    for s_ in stores:
+        key = norm(s_.node.slice)
+        conds = path_conditions(bp.node, s_.stmt)
+        guarded = any(not pol and isinstance(t, ast.Compare) and isinstance(t.ops[0], ast.In) and norm(t.left) == key and norm(t.comparators[0]) == "self._assembliesBySpecifier" for t, pol in conds)
+        r.require(guarded, "assemblies-by-specifier:duplicate-refused", bp, node=s_.stmt,
+                  msg=f"`{norm(s_.stmt)[:80]}` overwrites an earlier design with the same specifier without complaint: the map positions of the first design are "
+                      "all built from the second ('duplicate names are refused' does not cover specifiers)")
+    gl = idx.method("armi.reactor.blueprints.gridBlueprint.GridBlueprint", "getLocators")
+    if gl is None:
+        raise AnchorMissing("GridBlueprint.getLocators")
+    ids = [p for p in gl.params() if p != "self"][-1]
+    coerced = any(isinstance(st, ast.Assign) and norm(st.targets[0]) == ids and "str(" in norm(st.value) for st in walk_local(gl.node))
+    tests = [n for n in ast.walk(gl.node) if isinstance(n, ast.Compare) and isinstance(n.ops[0], ast.In) and norm(n.comparators[0]) == ids]
+    if not tests:
+        raise AnchorMissing("getLocators: membership test against latticeIDs")
+    for t in tests:
+        left_str = isinstance(t.left, ast.Call) and dotted(t.left.func) == "str"
+        r.require(coerced == left_str, f"lattice-ids:same-type:{norm(t)[:40]}", gl, node=t,
+                  msg=f"`{ids}` is coerced to strings but `{norm(t.left)}` is compared as it is: an integer specifier from an explicit `grid contents` list never matches, "
+                      "so the component is placed at none of its lattice positions")
+
+
 def run(idx, chk):
     chk.explanation = (
         "C18 is a relation between an input document and an object graph; static analysis claims only: (1) each lattice-map class reads and "
@@ -338,3 +371,5 @@ def run(idx, chk):
                  necessary="'composition after the requested material modifications'")
     chk.run_rule("R18.6", "custom isotopics are applied before the material modifications, both before elemental expansion", lambda r: r6_override_order(idx, r), floor=2,
                  necessary="'composition after the requested material modifications and isotopic overrides'")
+    chk.run_rule("R18.7", "specifier tables: a duplicate assembly specifier is refused; pin-lattice specifiers and lattice IDs are compared as the same type", lambda r: r7_specifier_tables(idx, r), floor=2,
+                 necessary="'places, at every location named in the core and pin lattice maps (text maps and explicit lists alike), an assembly of the specified design'")
